@@ -105,7 +105,9 @@ def loadtxt(
         with open(fname) as src:
             header = src.readline()
     else:
+        position = fname.tell()
         header = fname.readline()
+        fname.seek(position)
     if isinstance(header, bytes):
         header = header.decode("utf-8")
 
